@@ -49,6 +49,11 @@ def make_source(sym, kind):
         return ctor(6, n_actions=3, n_context_features=0, n_action_features=0, seed=3), None, False
     if kind == 'lambda':   return Environments.from_lambda(6, _ctx, _acts, _rwd), None, False
     if kind == 'lambda30': return Environments.from_lambda(30, _ctx, _acts, _rwd), None, False
+    if kind == 'lambda400': return Environments.from_lambda(400, _ctx, _acts, _rwd), None, False      # more look-ups per read than any bounded memo holds
+    if kind == 'xy_regression':                                                                        # continuous labels that no 5-decimal form holds
+        X = [[(i*3) % 4 - 1, i] for i in range(4)]; Y = [(i+1)/7 for i in range(4)]
+        snap = (copy.deepcopy(X), list(Y))
+        return Environments.from_supervised(X, Y, 'r'), (lambda: _same(X, Y, snap)), False
     if kind == 'lambda_rng': return Environments.from_lambda(6, _ctx_r, _acts_r, _rwd_r, 5), None, False
     if kind == 'xy':
         X = [[(i*3) % 4 - 1, i] for i in range(4)]; Y = [i % 2 for i in range(4)]
@@ -133,7 +138,8 @@ def freeze(it):
             acts = it.get('actions') or []
             try:
                 if is_batch(v): out[k] = ('fn', [[f(a) for a in A] for f,A in zip(v, it['actions'])])
-                else: out[k] = ('fn', [v(a) for a in acts])
+                elif acts: out[k] = ('fn', [v(a) for a in acts])
+                else: out[k] = ('fn@probes', [v(a) for a in (0, 0.25, 1/3, 1)])       # continuous actions: the function is compared on fixed probe points
             except Exception as e: out[k] = ('fn-raises', type(e).__name__)
         elif is_batch(v) and len(v) and all(callable(f) for f in v):
             try: out[k] = ('fn', [[f(a) for a in A] for f,A in zip(v, it['actions'])])
@@ -167,7 +173,7 @@ def params_(tier):
         pairs = [(a,b) for a in fl for b in fl if not (a == 'none' and b != 'none') and not (a in ('batch','batch_unbatch') and b in ('batch','batch_unbatch'))]    # batching a batch is outside
     zero = ('linear0','neighbors0','kernel0','mlp0')       # the zero-feature synthetic sources only under a few chains
     zero_pairs = [('none','none'),('shuffle','none'),('cache','none'),('take','none'),('logged','none'),('batch','none')]
-    return [dict(src=s, f1=a, f2=b) for s in SOURCES for a,b in pairs if s not in zero or (a,b) in zero_pairs] + [dict(src='lambda30', f1=a, f2=b) for a,b in (('cache','none'),('chunk','none'),('cache','take'),('none','none'),('shuffle','cache'))]
+    return [dict(src=s, f1=a, f2=b) for s in SOURCES for a,b in pairs if s not in zero or (a,b) in zero_pairs] + [dict(src='lambda400', f1='grounded', f2=b) for b in ('none','cache')] + [dict(src='xy_regression', f1=a, f2='none') for a in ('none','shuffle','cache')] + [dict(src='lambda30', f1=a, f2=b) for a,b in (('cache','none'),('chunk','none'),('cache','take'),('none','none'),('shuffle','cache'))]
 
 @obligation('C04','reread', bounds={'quick':"17 sources (incl. the four synthetic kinds without context/action features, an ARFF file with nominal feature and label, and two whose contexts nest a categorical inside a list / namespace dict) (+ a 30-interaction lambda source for the cache filters) x (27 single filters + 10 two-filter chains) x read histories of 2 operations (3 thorough) from {full read, partial read abandoned after j interactions, params, pickle round-trip, materialize} followed by a full read; symbolic integer features in the custom source",
                                     'thorough':"all ordered filter pairs; plus save()/from_save()"},
